@@ -255,7 +255,7 @@ Definition bracket_core (name : str) : option (option N * str) :=
   match rev (split_on c_lbr name) with
   | last :: _ :: _ =>
     match rev last with
-    | [] => None
+    | [] => Some (None, name)
     | e :: body_rev =>
       if N.eqb e c_rbr && isdigit (rev body_rev)
       then match before_last c_lbr name with
@@ -458,16 +458,14 @@ Proof.
       rewrite app_comm_cons, app_assoc. apply last_last.
 Qed.
 
-(* a name ending in "[" raises IndexError (when the guard holds) *)
-Theorem scalar_name_lbr_error : forall (p : str),
-  (match p with c :: _ => c <> c_bsl | [] => True end) ->
-  sep_bracket (p ++ [c_lbr]) = None.
+(* a name ending in "[" is simply not a bus bit (the reader used to raise IndexError here) *)
+Theorem scalar_name_lbr_not_bit : forall (p : str),
+  sep_bracket (p ++ [c_lbr]) = Some (None, p ++ [c_lbr]).
 Proof.
-  intros p H. rewrite sep_bracket_alt by (intro E; apply app_eq_nil in E; destruct E; discriminate).
-  replace (bracket_guard (p ++ [c_lbr])) with true.
-  - unfold bracket_core. rewrite (rev_split_app c_lbr p []) by (intros []). reflexivity.
-  - symmetry. unfold bracket_guard. destruct p as [|c r]; [reflexivity|].
-    cbn [app hd]. apply N.eqb_neq in H. rewrite H. reflexivity.
+  intros p. rewrite sep_bracket_alt by (intro E; apply app_eq_nil in E; destruct E; discriminate).
+  destruct (bracket_guard (p ++ [c_lbr])); [|reflexivity].
+  unfold bracket_core. rewrite (rev_split_app c_lbr p []) by (intros []).
+  destruct (rev (split_on c_lbr p)); reflexivity.
 Qed.
 
 Lemma In_last (l : str) d : l <> [] -> In (last l d) l.
@@ -490,7 +488,7 @@ Qed.
 
 Example bitname_examples :
   sep_bracket (s2l "a[b][12]") = Some (Some 12, s2l "a[b]") /\
-  sep_bracket (s2l "a[") = None /\
+  sep_bracket (s2l "a[") = Some (None, s2l "a[") /\
   sep_bracket (s2l "") = None /\
   sep_bracket (s2l "a[]") = Some (None, s2l "a[]") /\
   sep_bracket (s2l "[3]") = Some (Some 3, s2l "") /\
@@ -530,6 +528,6 @@ Print Assumptions bitname_underscore_amp_lost.
 Print Assumptions bitname_underscore_amp.
 Print Assumptions bitname_inverse.
 Print Assumptions scalar_name_not_bit_last.
-Print Assumptions scalar_name_lbr_error.
+Print Assumptions scalar_name_lbr_not_bit.
 Print Assumptions scalar_name_not_bit.
 Print Assumptions bitname_examples.
